@@ -19,7 +19,7 @@ from _griffe.collections import ModulesCollection
 from _griffe.expressions import ExprAttribute, ExprName
 from _griffe.extensions.base import Extensions
 from _griffe.models import Alias, Attribute, Class, Function, Module, Object, Parameter, Parameters
-from vlib.ob import TIER, cover, fail, obligation, tiered
+from vlib.ob import TIER, cover, fail, obligation, tiered, prop
 from vlib.stubs import plain_error_messages, silence_logging
 
 STUBS = silence_logging() + plain_error_messages()
@@ -50,7 +50,7 @@ def _chain(depth, init_mask):
     pre=lambda depth, from_mod, level, init_mask, star: 0 <= level <= tiered(3, 4) and 0 <= init_mask < 2 ** depth
     # a module can only have submodules if it is a package: every ancestor of the current module is an __init__ module
     and all((init_mask >> i) & 1 for i in range(depth - 1)),
-    drives=[relative_to_absolute, Module.is_package.fget, Module.is_subpackage.fget, Module.is_init_module.fget],
+    drives=[relative_to_absolute, prop(Module, "is_package"), prop(Module, "is_subpackage"), prop(Module, "is_init_module")],
     bounds={"current module": "a, a.b or a.b.c; the current module itself is a package (__init__.py) or a plain module", "level": f"0..{tiered(3, 4)}", "from-module": "none, x, x.y", "imported name": "n or *"},
     value_symbolic=["level", "whether the current module is a package (init_mask)", "star import"], selectors=["module depth, from-module text (driver-bound)"], stubs=STUBS,
     must_cover=["matches-cpython", "beyond-top-level"],
@@ -222,7 +222,7 @@ def _python_binding(scope, name):
     pid="C04", name="scope_walk", timeout=tiered(250, 900),
     shards=lambda: [(f"scope={s}", None, [dict(scope=s)]) for s in SCOPES],
     pre=lambda scope, name: len(name) == 1 and name in ALPHABET,
-    drives=[Object.resolve, Function.resolve, ExprName.canonical_path.fget],
+    drives=[Object.resolve, Function.resolve, prop(ExprName, "canonical_path")],
     bounds={"package": "w{o} > w.m{g(), K, import i, v}; K{x, v, f(self), N{y, h(self)}}", "looked-up name": f"1 char over {ALPHABET!r} (own members, enclosing-class members, module globals, imports, a name bound only in the parent package, an unbound name)",
             "scopes": SCOPES},
     value_symbolic=["name"], selectors=["scope in which the expression lives (driver-bound)"], stubs=STUBS, must_cover=["member", "import", "unchanged"],
@@ -245,7 +245,7 @@ def scope_walk(scope: str, name: str) -> bool:
     pid="C04", name="attribute_chain", timeout=tiered(250, 900),
     shards=lambda: [(f"scope={s}", None, [dict(scope=s)]) for s in ("module", "K")],
     pre=lambda scope, a, b, c, n: all(len(s) == 1 and s in "gKixNyu" for s in (a, b, c)) and 2 <= n <= 3,
-    drives=[ExprAttribute.canonical_path.fget, ExprName.canonical_path.fget, Object.resolve],
+    drives=[prop(ExprAttribute, "canonical_path"), prop(ExprName, "canonical_path"), Object.resolve],
     bounds={"chain": "a.b or a.b.c, every segment 1 char over 'gKixNyu'", "scope": "module w.m or class K"}, value_symbolic=["a", "b", "c", "length"], selectors=["scope (driver-bound)"], stubs=STUBS,
     grid=lambda seed: [dict(scope="module", a="K", b="N", c="y", n=3), dict(scope="K", a="i", b="x", c="u", n=2)],
 )
